@@ -70,6 +70,18 @@ def sc_split(B, C, D, N, blocks, how):
         s = parts[0]
         for p in parts[1:]:
             s += p
+    elif how == "fresh-acc":
+        # accumulate into a fresh (empty) container; the operands must stay what they were and
+        # remain usable for a second recombination
+        s = B.mod("gmm").GMMStats(C, D)
+        for p in parts:
+            s += p
+        for b, p in zip(blocks, parts):
+            eq_stats(o, "operand-unchanged-%s" % "".join(map(str, b)), p, o_stats(B, P, [X[i] for i in b]))
+        again = parts[0]
+        for p in parts[1:]:
+            again = again + p
+        eq_stats(o, "second-recombination", again, o_stats(B, P, X))
     else:
         s = functools.reduce(operator.iadd, parts)
     eq_stats(o, "split-" + how, s, o_stats(B, P, X))
@@ -122,7 +134,7 @@ def job_moments(P, C, D, N):
 
 
 def job_split(P, C, D, N, blocks):
-    for how in ("add", "iadd", "reduce"):
+    for how in ("add", "iadd", "reduce", "fresh-acc"):
         P.run("split-%s" % how, sc_split, dict(C=C, D=D, N=N, blocks=blocks, how=how), validate=1 if how == "add" else 0)
 
 
